@@ -390,6 +390,12 @@ class Sym:
     def find(self, sub, start=0):
         return wrap(z3.IndexOf(self.e, to_z3(sub), to_z3(start)))
 
+    def index(self, sub, start=0):
+        """str.index: find, with ValueError where the text is not there"""
+        i = z3.IndexOf(self.e, to_z3(sub), to_z3(start))
+        cur().oblige_or_raise(i >= 0, ValueError, "substring not found")
+        return wrap_num(i)
+
     def __contains__(self, sub):
         return bool(wrap(z3.Contains(self.e, to_z3(sub))))
 
